@@ -19,6 +19,7 @@ The lemma itself is exercised by the bounded stand-in C25.bounded.histories on t
 """
 from __future__ import annotations
 
+import ast
 import itertools
 import os
 import time
@@ -1065,6 +1066,54 @@ class LaterFS(FSModel):
         I.specs[("fn", id(ntpath.isfile))] = isfile
 
 
+def searchpath_loops():
+    """(frame qualname, loop ordinal, node) of every `for .. in self.searchpath` of class FileSystemLoader outside the body of
+    get_source itself and outside list_templates: the closures of get_source and the private helper methods"""
+    import sys
+    from pyvc import extract
+    tree, _, _ = extract.module_ast(sys.modules["jinja2.loaders"])
+    cls = next(n for n in tree.body if isinstance(n, ast.ClassDef) and n.name == "FileSystemLoader")
+    found = []
+
+    def loops_of(fn_node):
+        k = 0
+        for sub in ast.walk(fn_node):   # same numbering as the engine's loop_ordinal
+            if isinstance(sub, (ast.For, ast.While, ast.AsyncFor)):
+                yield k, sub
+                k += 1
+
+    def over_searchpath(loop):
+        it = getattr(loop, "iter", None)
+        return isinstance(it, ast.Attribute) and it.attr == "searchpath"
+
+    def owned(fn_node, loop):
+        """the loop belongs to fn_node itself, not to a function nested in it"""
+        for sub in ast.walk(fn_node):
+            if sub is not fn_node and isinstance(sub, (ast.FunctionDef, ast.AsyncFunctionDef, ast.Lambda)) and any(x is loop for x in ast.walk(sub)):
+                return False
+        return True
+
+    def visit(fn_node, qualname, top):
+        for k, loop in loops_of(fn_node):
+            if over_searchpath(loop) and owned(fn_node, loop) and not (top and fn_node.name in ("get_source", "list_templates")):
+                found.append((qualname, k, loop))
+        for sub in ast.walk(fn_node):
+            if sub is not fn_node and isinstance(sub, (ast.FunctionDef, ast.AsyncFunctionDef)) and owned_def(fn_node, sub):
+                visit(sub, f"{qualname}.<locals>.{sub.name}", False)
+
+    def owned_def(fn_node, d):
+        for sub in ast.walk(fn_node):
+            if sub is not fn_node and sub is not d and isinstance(sub, (ast.FunctionDef, ast.AsyncFunctionDef)) and any(x is d for x in ast.walk(sub)):
+                return False
+        return True
+
+    for m in cls.body:
+        if isinstance(m, (ast.FunctionDef, ast.AsyncFunctionDef)):
+            visit(m, f"FileSystemLoader.{m.name}", True)
+    return found
+
+
+
 class FSCheck(FSGetSource):
     """the `uptodate` closure returned by FileSystemLoader.get_source, called after the file system changed"""
 
@@ -1076,25 +1125,19 @@ class FSCheck(FSGetSource):
         FSGetSource.configure(self, I)
         self.fs = LaterFS(self.platform)
         self.fs.install(I)
-        # a loop inside the closure (over the search paths): none of the candidates seen so far exists now or is the loaded file
-        import ast
-        from pyvc import extract
-        try:
-            node, _ = extract.nested_function_ast(self.target, "uptodate")
-        except LookupError:
-            node = None
-        loops = [n for n in ast.walk(node) if isinstance(n, (ast.For, ast.While))] if node is not None else []
-        if loops:
-            names = {x.id for x in ast.walk(loops[0]) if isinstance(x, ast.Name) and isinstance(x.ctx, ast.Store)}
-            names -= {x.id for x in ast.walk(loops[0].target) if isinstance(x, ast.Name)} if hasattr(loops[0], "target") else set()
-            c = self
+        # a loop over self.searchpath that is run by the check - in the closure itself or in a private helper of the class
+        # reached from it: none of the candidates seen so far exists now or is the loaded file
+        c = self
 
-            def inv(ctx):
-                T = c.opened_path(Outcome(ctx.st, "return", None, 0))
-                j = z3.Int(fresh_name("j"))
-                return [z3.ForAll([j], z3.Implies(z3.And(0 <= j, j < ctx.k), z3.And(z3.Not(fs2_exists(c.cand(j))), c.cand(j) != T)))]
+        def inv(ctx):
+            T = c.opened_path(Outcome(ctx.st, "return", None, 0))
+            j = z3.Int(fresh_name("j"))
+            return [z3.ForAll([j], z3.Implies(z3.And(0 <= j, j < ctx.k), z3.And(z3.Not(fs2_exists(c.cand(j))), c.cand(j) != T)))]
 
-            I.loops[("FileSystemLoader.get_source.<locals>.uptodate", 0)] = LoopSpec(inv, havoc={n: "str" for n in sorted(names)}, name="shadow_loop")
+        for qualname, ordinal, loop in searchpath_loops():
+            names = {x.id for x in ast.walk(loop) if isinstance(x, ast.Name) and isinstance(x.ctx, ast.Store)}
+            names -= {x.id for x in ast.walk(loop.target) if isinstance(x, ast.Name)}
+            I.loops[(qualname, ordinal)] = LoopSpec(inv, havoc={n: "str" for n in sorted(names)}, name="shadow_loop")
 
     def paths(self, I):
         pre, outs = FSGetSource.paths(self, I)
@@ -1123,7 +1166,13 @@ class FSCheck(FSGetSource):
 
     def later_access(self, out, T):
         """structural part: the check only examines the loaded file and candidates of the same name in the search paths"""
-        if out.raised or unexpected(out):
+        if out.raised:
+            return None
+        bad = [e.name for e in later_events(out) if e.kind == "call" and e.name.startswith("unexpected:")]
+        if bad:
+            # a shape of the check this contract does not recognise: undecided, never a violation
+            raise Unsupported(f"the up-to-date check calls {bad[0][11:]} which has no spec")
+        if unexpected(out):
             return None
         conj, n_mtime = [], 0
         for e in later_events(out):
